@@ -539,6 +539,92 @@ fn close_mode(inputs: &[Value], si: usize, sn: usize, out: &mut TraceOut, pend: 
                 });
                 drop(h);
             }
+            // A background merge is in flight at the drop (stopped after it has copied some of the keys); as soon as
+            // the drop has returned the directory is opened again, and only then does the old merge go on.  The new
+            // store must read every key and take writes: "the directory can be opened again at once" means USED.
+            "mid-merge-reopen" => {
+                let nth = inp["nth"].as_u64().unwrap_or(2);
+                let cfgv = json!({"max_file_size": inp["max_file"].as_u64().unwrap_or(120),
+                                  "merge": {"policy": "always", "check_interval_ms": 40, "check_jitter": 0.0,
+                                            "triggers": {"fragmentation": 0.1, "dead_bytes": 10},
+                                            "thresholds": {"fragmentation": 0.0, "dead_bytes": 0, "small_file": 1_000_000_000u64}}});
+                quiesce();
+                let base_bg = bg_threads();
+                arm_nth("merge.copied", nth);
+                let kv: Bitcask = make_config(&dir, &cfgv).open().expect("open");
+                let h = kv.get_handle();
+                for round in 0..3 {
+                    for j in 0..6 {
+                        let _ = h.set(Bytes::from(format!("k{j}")), Bytes::from(format!("v{round}-{j}")));
+                    }
+                }
+                let parked = wait_parked(Duration::from_secs(3));
+                ev["parked"] = json!(parked);
+                mark("drv.drop");
+                let dropper = std::thread::spawn(move || {
+                    drop(kv);
+                    mark("drv.dropped");
+                });
+                // (a drop that waits for the merge in flight is fine too: then the merge is let go first)
+                let _ = wait_until(|| dropper.is_finished(), Duration::from_millis(400));
+                let early = dropper.is_finished();
+                ev["drop_done_before_release"] = json!(early);
+                let nocfg = json!({"max_file_size": 120, "merge": {"policy": "never"}});
+                let mut kv2: Option<Bitcask> = None;
+                let mut reopen = "ok".to_string();
+                if early {
+                    match std::panic::catch_unwind(std::panic::AssertUnwindSafe(|| make_config(&dir, &nocfg).open())) {
+                        Ok(Ok(k)) => kv2 = Some(k),
+                        Ok(Err(e)) => reopen = format!("err:{e}"),
+                        Err(_) => reopen = "panic".into(),
+                    }
+                }
+                release();
+                let drop_joined = wait_until(|| dropper.is_finished(), Duration::from_secs(5));
+                let _ = dropper.join();
+                ev["drop_returned_ms"] = json!(drop_joined.map(|x| x as i64).unwrap_or(-1));
+                // the old worker (the only worker: the new store's policy is never, without interval sync it exits at once)
+                let gone = wait_until(|| bg_threads() <= base_bg, Duration::from_secs(3));
+                ev["bg_gone_ms"] = json!(gone.map(|x| x as i64).unwrap_or(-1));
+                if kv2.is_none() && reopen == "ok" {
+                    match std::panic::catch_unwind(std::panic::AssertUnwindSafe(|| make_config(&dir, &nocfg).open())) {
+                        Ok(Ok(k)) => kv2 = Some(k),
+                        Ok(Err(e)) => reopen = format!("err:{e}"),
+                        Err(_) => reopen = "panic".into(),
+                    }
+                }
+                ev["reopen"] = json!(reopen);
+                let mut reads = vec![];
+                if let Some(k2) = &kv2 {
+                    let h2 = k2.get_handle();
+                    for round in 0..2 {
+                        for j in 0..6 {
+                            let (h3, kb) = (h2.clone(), format!("k{j}").into_bytes());
+                            reads.push(json!({"k": format!("k{j}"), "res": with_watchdog(move || get_res(&h3, &kb), Duration::from_secs(3)), "want": format!("v2-{j}"), "round": round}));
+                        }
+                        if round == 0 {
+                            let (h3, h4) = (h2.clone(), h2.clone());
+                            let w = with_watchdog(move || res_str(std::panic::catch_unwind(std::panic::AssertUnwindSafe(|| h3.set(Bytes::from_static(b"fresh"), Bytes::from_static(b"new"))))), Duration::from_secs(3));
+                            reads.push(json!({"k": "set fresh", "res": w, "want": "ok", "round": round}));
+                            reads.push(json!({"k": "fresh", "res": with_watchdog(move || get_res(&h4, b"fresh"), Duration::from_secs(3)), "want": "new", "round": round}));
+                        }
+                    }
+                }
+                ev["reads_through_the_reopened_store"] = json!(reads);
+                ev["after"] = use_closed_handle(&h);
+                drop(kv2);
+                // and once more after everything has settled
+                ev["final"] = json!(match open_store(&dir, &SpecCfg { max_file: 120, sync: "none".into(), th_frag_num: 1, th_frag_den: 1, th_dead: 1_000_000, th_small: 0 }, Knobs { concurrency: 1, cache: 4 }) {
+                    Ok(kv3) => {
+                        let h3 = kv3.get_handle();
+                        let bad: Vec<String> = (0..6).filter(|j| get_res(&h3, format!("k{j}").as_bytes()) != format!("v2-{j}")).map(|j| format!("k{j}")).collect();
+                        drop(kv3);
+                        if bad.is_empty() { "ok".to_string() } else { format!("misreads {}", bad.join(",")) }
+                    }
+                    Err(e) => e,
+                });
+                drop(h);
+            }
             "cycles" | "quick-cycles" => {
                 let cycles = inp["n"].as_u64().unwrap_or(30) as usize;
                 let cfgv = inp.get("config").cloned().unwrap_or(json!({}));
